@@ -14,6 +14,7 @@
 #include <stdlib.h>
 #include <string.h>
 #include <sys/stat.h>
+#include <sys/wait.h>
 #include <unistd.h>
 
 #include <map>
@@ -261,7 +262,9 @@ static string DlogTable(DepsLog& dl) {
     if (!d) continue;
     string ins = "[";
     for (int i = 0; i < d->node_count; ++i) { if (i) ins += ","; ins += JBytes(d->nodes[i]->path()); }
-    rows.push_back("{\"o\":" + JBytes(dl.nodes()[id]->path()) + ",\"m\":" + to_string(d->mtime) + ",\"d\":" + ins + "]}");
+    string m8 = "[";
+    for (int k = 0; k < 8; ++k) { if (k) m8 += ","; m8 += to_string((int)(((uint64_t)d->mtime >> (8 * k)) & 0xff)); }
+    rows.push_back("{\"o\":" + JBytes(dl.nodes()[id]->path()) + ",\"m\":" + m8 + "],\"d\":" + ins + "]}");
   }
   sort(rows.begin(), rows.end());
   string r = "[";
@@ -281,6 +284,7 @@ static void RunDlog(const JV& seq, long idx) {
   int st;
   string warn = s.Open(&st);
   fprintf(g_out, "{\"e\":\"Reset\",\"kind\":\"dlog\",\"id\":%ld}\n", idx);
+  fflush(g_out);
   for (auto& op : seq["ops"].a) {
     string k = op["op"].str();
     string extra;
@@ -336,6 +340,7 @@ static void RunDlog(const JV& seq, long idx) {
     string bytes = ReadAll(s.path, &ex);
     fprintf(g_out, "{\"e\":\"LogOp\",\"op\":\"%s\"%s,\"exists\":%s,\"bytes\":%s,\"table\":%s,\"status\":%d,\"warn\":%s}\n", k.c_str(), extra.c_str(),
             ex ? "true" : "false", JBytes(bytes).c_str(), DlogTable(*s.log).c_str(), st, JEsc(warn).c_str());
+    fflush(g_out);
   }
   s.log->Close();
 }
@@ -410,7 +415,21 @@ int main(int argc, char** argv) {
       bool ok;
       JV j = JParse(line, &ok);
       if (!ok) { fprintf(stderr, "bad line\n"); return 2; }
-      if (kind == "blog") RunBlog(j, idx); else RunDlog(j, idx);
+      // every sequence runs in a child: a crash of the log class is an observation, not the end of the run
+      fflush(g_out);
+      pid_t pid = fork();
+      if (pid == 0) {
+        alarm(30);
+        if (kind == "blog") RunBlog(j, idx); else RunDlog(j, idx);
+        fflush(g_out);
+        _exit(0);
+      }
+      int st = 0;
+      while (waitpid(pid, &st, 0) < 0 && errno == EINTR) {}
+      if (!(WIFEXITED(st) && WEXITSTATUS(st) == 0)) {
+        fseek(g_out, 0, SEEK_END);
+        fprintf(g_out, "\n{\"e\":\"Crashed\",\"id\":%ld,\"status\":%d,\"signal\":%d}\n", idx, st, WIFSIGNALED(st) ? WTERMSIG(st) : 0);
+      }
       ++idx;
     }
     fclose(g_out);
